@@ -74,7 +74,7 @@ ActOf(e) ==
 \* sd: the synced image of the storage (what certainly survives a crash); equals the live
 \* storage unless writes that need no fsync are outstanding
 AppOf(e, old) ==
-  [phase |-> e.p.phase, appendQ |-> e.p.appendQ, applyQ |-> e.p.applyQ, appliedDurable |-> e.p.appliedDurable,
+  [phase |-> e.p.phase, appendQ |-> e.p.appendQ, applyQ |-> e.p.applyQ, localQ |-> e.p.localQ, appliedDurable |-> e.p.appliedDurable,
    inc |-> e.p.inc, lastConfIdx |-> e.p.lastConfIdx, appConf |-> e.p.appConf, created |-> e.p.created,
    rd |-> IF HasF(e, "rd") THEN e.rd ELSE IF e.p.phase = "idle" THEN NoReady ELSE old.rd,
    sd |-> IF HasF(e.p, "sd") THEN e.p.sd ELSE e.d]
@@ -191,7 +191,7 @@ KFTags(nm) ==
 \* behaviour): reported and counted, never a property verdict.
 ConformActs == {"Tick", "Campaign", "Propose", "ProposeConfChange", "ProposeBatch", "ReadIndex", "TransferLeader", "ForgetLeader",
                 "ReportUnreachable", "ReportSnapshot", "Deliver", "Ready", "PersistEntries", "PersistHardState",
-                "PersistSnapshot", "Send", "Apply", "Advance", "AppendThread", "CrashInAppend", "ApplyThread",
+                "PersistSnapshot", "Send", "Apply", "Advance", "AppendThread", "LocalResp", "CrashInAppend", "ApplyThread",
                 "Snapshot", "Compact", "Crash", "Restart", "Boot"}
 DoConform == "VERIF_CONFORM" \in DOMAIN IOEnv /\ IOEnv.VERIF_CONFORM = "1"
 DiffFields(x, y) == {f \in DOMAIN x : f \notin DOMAIN y \/ x[f] # y[f]}
